@@ -155,7 +155,10 @@ def recognise_doc(lines, version=None, dialect="standard"):
                     r = worst(r, (UNSPEC, "slen != len(sequence)"))
                     continue
                 for p in (b, e):
-                    pv = int(p.rstrip("$"))
+                    try:
+                        pv = int(p.rstrip("$"))
+                    except ValueError:
+                        continue        # beyond the conversion limit: the line is UNSPEC already
                     if p.endswith("$") and pv != slen:
                         return (INVALID, "$ on a non-last position of a segment %s"
                                 % ("without sequence" if seg.pos[2] == "*" else "with sequence"))
